@@ -818,12 +818,12 @@ Proof.
 Qed.
 
 (* the bridge: agreement of the implementation with the model transfers the property *)
-Lemma agree_pcheck : forall c, agree c = true -> known c = false -> pcheck c = true.
+Lemma agree_pcheck : forall c, agree c = true -> pcheck c = true.
 Proof.
-  intros [s o r s'|cl al] Ha Hk; [|reflexivity]. cbn [agree pcheck known] in *.
+  intros [s o r s'|cl al] Ha; [|reflexivity]. cbn [agree pcheck] in *.
   destruct (step_tree s o) as [r1 s1] eqn:Es. apply andb_true_iff in Ha as [Hr Hs].
   apply res_eqb_eq in Hr. apply st_eqb_eq in Hs. subst r1 s1.
-  eapply step_pcheck; eauto.
+  eapply step_pcheck; [exact Es|]. destruct r; reflexivity.
 Qed.
 
 (* ------------------------------------------------------------------ histories *)
